@@ -195,6 +195,29 @@ def diverges(e):
     return is_panic_call(e)
 
 
+def is_err_exit(e):
+    """an expression that leaves with an error: Err(..) value (also through .help(..) chains), `return Err(..)`,
+    or a block ending in one"""
+    e = peel(e)
+    if not isinstance(e, dict):
+        return False
+    k = e.get("k")
+    if k == "Call" and (norm_path(e.get("callee")) or "").endswith("core::result::Result::Err"):
+        return True
+    if k == "MethodCall" and e["m"] in ("help", "help_no_span"):
+        return is_err_exit(e["recv"])
+    if k == "Ret":
+        return is_err_exit(e.get("e"))
+    if k == "Block":
+        if e.get("e") is not None:
+            return is_err_exit(e["e"])
+        if e["stmts"]:
+            s = e["stmts"][-1]
+            if s.get("k") in ("Semi", "ExprStmt") and peel(s["e"]).get("k") == "Ret":
+                return is_err_exit(s["e"])
+    return False
+
+
 # ------------------------------------------------------------------ patterns
 
 
